@@ -120,6 +120,13 @@ Lemma gen_tversky_loss_ok (al be eps : K) :
   = b_overlap (tversky_loss 0 al be eps) RMean [[[x0; x1]; [x2; x3]]] [[[y0; y1]; [y2; y3]]] None.
 Proof. repeat split; try gen_tac. fcbv. apply f_equal. list_eq; div_congr. Qed.
 
+(* channel glue of tversky_index: a two-channel prediction with a binary target is scored on its foreground
+   channel 1; a one-channel prediction with a two-channel one-hot target against the target's channel 1 *)
+Lemma gen_tversky_forms_ok (al be eps : K) :
+  gen_tversky_p2t1 al be eps X [y0; y1] = [tversky_index al be eps [x2; x3] [y0; y1] None] /\
+  gen_tversky_p1t2 al be eps [x0; x1] Y = [tversky_index al be eps [x0; x1] [y2; y3] None].
+Proof. split; gen_tac. Qed.
+
 (* ---- global correlation ---------------------------------------------------------------------------- *)
 Lemma gen_ncc_ok (eps : K) : gen_ncc eps X Y = [ncc_one eps X Y].
 Proof. gen_tac. Qed.
